@@ -247,12 +247,12 @@ pub struct AddChannel { pub context: AddCtx }
 impl AddChannel {
 //@extract lightning/src/ln/channel.rs :: impl FundedChannel :: fn update_add_htlc
 //@rw R15
-    fn update_add_htlc<F: FeeEstimator>($params:any) -> $ret { $pre:any if msg.amount_msat == 0 { return Err($e0); } $tests:any core::iter::once(&self.funding) $chain:straight ; self.context.next_counterparty_htlc_id += 1; self.context.pending_inbound_htlcs.push(InboundHTLCOutput { $fields:any }); Ok(()) }
+    fn update_add_htlc<F: FeeEstimator>($params:any) -> $ret { $pre:any if msg.amount_msat == 0 { return Err($e0); } $tests:any core::iter::once(&self.funding) $chain:straight ; self.context.next_counterparty_htlc_id $inc:seq; self.context.pending_inbound_htlcs.push(InboundHTLCOutput { $fields:any }); Ok(()) }
 //@with
     fn accept_update_add(&mut self, msg: &UpdateAddHTLC) -> Result<(), ChannelError> {
         if msg.amount_msat == 0 { return Err(ChannelError::close(0)); }
         $tests
-        self.context.next_counterparty_htlc_id += 1;
+        self.context.next_counterparty_htlc_id $inc;
         self.context.pending_inbound_htlcs.push(InboundHTLCOutput { $fields });
         Ok(())
     }
